@@ -34,9 +34,10 @@ func init() {
 				{H: sym.Harness{Pkg: "meta/icc", Func: "VerifHarness_C09_ICC_Arbitrary"}, ExpectReach: []string{"returned"}, SamplePaths: 3},
 				{H: sym.Harness{Pkg: "meta/icc", Func: "VerifHarness_C09_ICC_TagTable", Workers: 14}, ExpectReach: []string{"returned"}, SamplePaths: 3},
 			}
+			runs = append(runs, &Run{H: sym.Harness{Pkg: "meta/icc", Func: "VerifHarness_C09_ICC_SharedTags", WallBudgetMs: 300000}, ExpectReach: []string{"returned"}, SamplePaths: 1})
 			// one run per shape of the description tag, each with its own path budget, so that
 			// a path explosion in one shape cannot hide a violation in another
-			for k := int64(0); k < 6; k++ {
+			for k := int64(0); k < 7; k++ {
 				runs = append(runs, &Run{H: sym.Harness{Pkg: "meta/icc", Func: "VerifHarness_C09_ICC_Desc", Workers: 6, MaxPaths: 6000, WallBudgetMs: 300000, SetGlobals: map[string]int64{"verifC09Case": k}}, ExpectReach: []string{"returned"}, SamplePaths: 1})
 			}
 			return runs
